@@ -134,3 +134,10 @@ Definition blocks_reorder_ok (n : nat) (gs : list gate) : bool :=
   | Some bs => reorder_ok (split_meas gs) (flat_map igates bs)
   | None => true
   end.
+
+(* executable form of the hypothesis of blocks_equiv: pairwise distinct gates, each on at least
+   one qubit and on distinct qubits *)
+Fixpoint gates_nodupb (l : list gate) : bool :=
+  match l with [] => true | g :: l' => negb (existsb (gate_eqb g) l') && gates_nodupb l' end.
+Definition gates_ok0b (l : list gate) : bool :=
+  gates_nodupb l && forallb (fun g => (1 <=? nq g) && nodupb (gqs g)) l.
